@@ -105,6 +105,12 @@ func (v *VoteDB) UpdateContext(round *big.Int, roundIndex uint32) {
 	if v.round != nil && v.round.Cmp(round) == 0 && v.roundIndex == roundIndex {
 		return
 	}
+	// The context only moves forward. After a restart or a resume the engine re-enters the
+	// round at index 1; moving back would forget the votes already signed at the indexes in
+	// between and grant them a second time.
+	if v.round != nil && (v.round.Cmp(round) > 0 || (v.round.Cmp(round) == 0 && v.roundIndex > roundIndex)) {
+		return
+	}
 
 	v.mark = make(map[VoteType]uint8)
 	v.round = round
@@ -167,6 +173,10 @@ func (v *VoteDB) ExistVoteData(voteType VoteType, round *big.Int, roundIndex uin
 }
 
 func (v *VoteDB) alreadyVoted(voteType VoteType, round *big.Int, roundIndex uint32) bool {
+	if v.round != nil && v.round.Cmp(round) > 0 {
+		// a round before the one already voted in
+		return true
+	}
 	if v.round != nil && v.round.Cmp(round) == 0 {
 		if v.roundIndex > roundIndex ||
 			(v.roundIndex == roundIndex && voteType == NextIndex && v.mark[voteType] == 2) ||
